@@ -634,10 +634,52 @@ func ruleIDHoist(c *Ctx) []Obligation {
 		extra = append(extra, c.InstrPos(g.If))
 	}
 	// the block that loads mod.Include (loop pre-header) may also be guarded
+	var obs []Obligation
 	if len(extra) == 0 {
-		return []Obligation{ok(R, con, c.InstrPos(hdr.Instrs[0]), "the include loop runs for every module (no guard besides the loops)")}
+		obs = append(obs, ok(R, con, c.InstrPos(hdr.Instrs[0]), "the include loop runs for every module (no guard besides the loops)"))
+	} else {
+		obs = append(obs, bad(R, con, c.InstrPos(hdr.Instrs[0]), "the include loop is skipped under a condition ("+extra[0]+"): a module whose identities all live in submodules loses them"))
 	}
-	return []Obligation{bad(R, con, c.InstrPos(hdr.Instrs[0]), "the include loop is skipped under a condition ("+extra[0]+"): a module whose identities all live in submodules loses them")}
+	// … and of the submodules those include in turn: some Include list that is walked belongs to a module that was
+	// itself reached through an include link (a work list fed with in.Module, or a recursion handed in.Module)
+	con2 := "the identities of submodules included by submodules are filed too"
+	incT := c.MustNamed("yang", "Include")
+	fLink := FieldVar(incT, "Module")
+	transitive := false
+	c.eachInstrDeep(fn, func(in ssa.Instruction) {
+		v, okv := in.(ssa.Value)
+		if !okv {
+			return
+		}
+		_, f, base := loadedField(v)
+		if f != fInclude || base == nil {
+			return
+		}
+		operandClosure(base, func(x ssa.Value) {
+			if _, lf, _ := loadedField(x); lf == fLink && fLink != nil {
+				transitive = true
+			}
+		})
+		// a recursion: the function that walks the list calls itself with a linked module
+		host := in.Parent()
+		eachInstr(host, func(in2 ssa.Instruction) {
+			call, isC := in2.(*ssa.Call)
+			if !isC || call.Call.StaticCallee() != host {
+				return
+			}
+			for _, a := range call.Call.Args {
+				if _, lf, _ := loadedField(a); lf == fLink && fLink != nil {
+					transitive = true
+				}
+			}
+		})
+	})
+	if transitive {
+		obs = append(obs, ok(R, con2, c.InstrPos(hdr.Instrs[0]), "an Include list of a module reached through an include link is walked"))
+	} else {
+		obs = append(obs, bad(R, con2, c.InstrPos(hdr.Instrs[0]), "only the Include list of the module itself is walked: a submodule that is included by a submodule (RFC 6020 7.1.6; its nodes are merged into the module) contributes no identities — a base defined there is reported as unresolvable, its derivations are not listed, an undefined base written there goes unreported"))
+	}
+	return obs
 }
 
 // ---------------------------------------------------------------- ID.VALRESET
